@@ -90,7 +90,7 @@ claim("C12", "type-resolved who-may-call over all workspace MIR + enumerated tab
       "expose unstable interned ids are exactly an enumerated, individually argued set (two of them are genuine defects, listed as known "
       "findings); (c) the parallel warm-up returns nothing and ensure_diagnostics returns the sequential result; no ambient input (env, "
       "clock, randomness, thread/process id) is read in code reachable from a tracked query outside the table; (d) no closure handed to a rayon "
-      "consumer / join / spawn / scope writes a shared-state primitive (lock, RefCell, atomic, channel), so values leave a parallel body only through "
+      "consumer / join / spawn / scope writes order-bearing shared state (a lock or mutable borrow over anything but a hashed / sorted set or map, a channel, a value-returning atomic), so values leave a parallel body only through "
       "its return value, which the collectors put back in input order." + DECIDES +
       " That the remaining order sources (BFS order, OrderedHash* insertion order) are deterministic functions of the sources is not decided.",
       "trusted: rustc MIR and type resolution, fact dumper; tables c12_hash_iter.tsv / c12_id_order.tsv / c12_ambient.tsv carry the reasons",
